@@ -3,9 +3,12 @@ PROP = {'rule': 'rapid-generated cases. drift: state machine (<=40 steps) over p
          'Reserve / Unreserve|Forget / bound OnUpdate (also bound elsewhere) / OnUpdate(resources | spec.priority flip | conditions | '
          'terminated | nodeName change | metadata only) / OnDelete (also tombstone) / NodeMetric add|update (update time aimed at '
          'assignTime+reportInterval and at estimation deadlines, +-1s/+-1ns; per-pod usage aimed at the estimate: =,+-1,/2,*2,0, missing, '
-         'empty, wrong prod flag, dangling and nil entries; aggregated usages; empty status) / NodeMetric delete / clock tick, on 3 nodes; '
+         'empty, wrong prod flag, dangling and nil entries; aggregated usages; empty status) / NodeMetric delete / clock tick / read-only '
+         'probe (real PreFilter+Filter and/or Score of a drawn incoming pod, 1-4 times in a row, with drawn thresholds / aggregated '
+         'filter+score profiles incl. types/periods the metric does not report, optional custom-aggregation node annotation), on 3 nodes; '
          'after every step all 22 query modes (prod, whole node, 4 aggregation types x 5 periods) of every node are compared with a fresh '
-         'cache fed the final metric+pods and with a from-scratch model; non-trivial = a pod whose CURRENT report shows a usage different '
+         'cache fed the final metric+pods and with a from-scratch model, and every vector returned to the harness is overwritten (+1) '
+         'afterwards as an aliasing detector; non-trivial = a pod whose CURRENT report shows a usage different '
          'from its estimate is removed (delete / rollback / terminated / moved) while the node has a metric. decision: (args after '
          'defaulting, node with custom-threshold and raw-allocatable annotations, metric fresh|expired|missing|empty, 0-4 assigned pods, '
          'incoming pod); allocatable aimed so that utilization = threshold + {-5..5, +-0.49/0.5/0.51, 1, 1.49, 1.5} percent; non-trivial = '
@@ -37,7 +40,9 @@ PROP = {'rule': 'rapid-generated cases. drift: state machine (<=40 steps) over p
                       'boundaries) are applied to podAssignCache; after every event the vector returned by '
                       'GetNodeMetricAndEstimatedOfExisting for every node and every query mode must equal both a fresh cache fed the '
                       'final metric and pods and an independent from-scratch computation (usage + sum over not-yet-reflected pods of '
-                      'max(estimate - reported, 0)). Plugin.Filter is run on generated (args, node, metric, assigned pods, incoming pod) '
+                      'max(estimate - reported, 0)); read-only probes run the real Filter/Score consumers in between (they must leave the kept '
+                      'estimate unchanged and return the same verdict/score when repeated) and returned vectors are scribbled over to '
+                      'detect aliasing of cached sums. Plugin.Filter is run on generated (args, node, metric, assigned pods, incoming pod) '
                       'with allocatable aimed at the threshold boundary; a pass is a violation when the exact utilization rounds above '
                       'the configured percentage in any thresholded resource; expired metrics must be rejected/skipped exactly as '
                       'configured and nodes without a metric skipped. Exploration, not proof.',
